@@ -431,6 +431,8 @@ def reduce_idx(raw, length, allow_below):
         return ("mask", bits, raw[2]), "mask"
     if tag == "arr":
         vals = [] if length == 0 else [r % (2 * length) - length for r in raw[1]]
+        if not raw[2] and vals and len(raw[1]) % 2:
+            vals = vals + [vals[0]]  # non-unique requested: make a duplicate likely
         if raw[2]:  # unique positions
             seen, out = set(), []
             for v in vals:
@@ -513,6 +515,7 @@ class Interp:
         self.dirty = set()
         self.saw_fancy_index = False
         self.saw_structural = False
+        self.classes = set()  # coarse index classes seen in this history (one label each)
 
     # ---- helpers
     def ctx(self, extra=""):
@@ -608,6 +611,21 @@ class Interp:
             return self.skip("empty")
         mcall, rcall, labels, kinds = self._index_call(s, form, raw0, raw1)
         self.o.label(*["idx:" + lab for lab in labels])
+        if s.model.kind == "stack" and form != "1d":
+            self.classes.add("2d" if form == "2d" else "tuple_ellipsis")
+        elif form == "te":
+            self.classes.add("tuple_ellipsis")
+        for lab in kinds:
+            head = lab.split("-")[0]
+            self.classes.add(head)
+            if lab.endswith("bad"):
+                self.classes.add("out_of_range")
+            elif "neg" in lab:
+                self.classes.add(head + "-neg")
+            if "step" in lab:
+                self.classes.add("slice-step")
+            if "dup" in lab:
+                self.classes.add("arr-dup" + ("-with-bonds" if s.model.bonds is not None else ""))
         before_uid = None
         if s.model.bonds is not None:
             uids = [a["uid"] for a in s.model.ann]
@@ -1133,6 +1151,7 @@ def run_history(case):
         o.label("has_fancy_or_negative_index")
     if it.saw_structural:
         o.label("has_structural_on_bonds_or_box")
+    o.label(*["class:" + c for c in sorted(it.classes)])
     kinds = {s.model.kind for s in it.slots if s is not None}
     for s in it.slots:
         if s is None:
